@@ -67,6 +67,160 @@ func originField(v ssa.Value, depth int) (string, string) {
 	return "", ""
 }
 
+// originParam: like originField, but for values that come from a parameter of the function.
+func originParam(v ssa.Value, depth int) *ssa.Parameter {
+	if depth > 10 {
+		return nil
+	}
+	switch x := v.(type) {
+	case *ssa.Parameter:
+		return x
+	case *ssa.UnOp:
+		if u := unspill(x); u != ssa.Value(x) {
+			return originParam(u, depth+1)
+		}
+		if _, ok := x.X.(*ssa.FieldAddr); ok {
+			return nil
+		}
+		return originParam(x.X, depth+1)
+	case *ssa.IndexAddr:
+		return originParam(x.X, depth+1)
+	case *ssa.Index:
+		return originParam(x.X, depth+1)
+	case *ssa.Extract:
+		return originParam(x.Tuple, depth+1)
+	case *ssa.Next:
+		return originParam(x.Iter, depth+1)
+	case *ssa.Range:
+		return originParam(x.X, depth+1)
+	case *ssa.Phi:
+		for _, e := range x.Edges {
+			if p := originParam(e, depth+1); p != nil {
+				return p
+			}
+		}
+	case *ssa.Slice:
+		return originParam(x.X, depth+1)
+	}
+	return nil
+}
+
+type fieldRef struct{ typ, field string }
+
+// renderSummary: what a package function renders — fields of nodes (read through its receiver or
+// anything else) and parameters holding nodes / node lists — directly or through callees.
+type renderSummary struct {
+	fields []fieldRef
+	params []int
+}
+
+var renderSummaries = map[*ssa.Function]*renderSummary{}
+
+func summariseRenders(g *ssa.Function, depth int) *renderSummary {
+	if s, ok := renderSummaries[g]; ok {
+		return s
+	}
+	s := &renderSummary{}
+	renderSummaries[g] = s // cuts recursion
+	if depth > 3 || len(g.Blocks) == 0 {
+		return s
+	}
+	addField := func(t, f string) {
+		for _, x := range s.fields {
+			if x.typ == t && x.field == f {
+				return
+			}
+		}
+		s.fields = append(s.fields, fieldRef{t, f})
+	}
+	addParam := func(p *ssa.Parameter) {
+		for i, gp := range g.Params {
+			if gp == p {
+				for _, x := range s.params {
+					if x == i {
+						return
+					}
+				}
+				s.params = append(s.params, i)
+			}
+		}
+	}
+	instrsOf(g, func(in ssa.Instruction) {
+		c, ok := in.(ssa.CallInstruction)
+		if !ok {
+			return
+		}
+		cc := c.Common()
+		if cc.IsInvoke() {
+			if cc.Method.Name() != "Render" || !isNamed(cc.Value.Type(), twigPath, "Node") {
+				return
+			}
+			if t, f := originField(cc.Value, 0); f != "" {
+				addField(t, f)
+			} else if p := originParam(cc.Value, 0); p != nil {
+				addParam(p)
+			}
+			return
+		}
+		h := cc.StaticCallee()
+		if h == nil || h.Pkg == nil || h.Pkg.Pkg.Path() != twigPath || h == g {
+			return
+		}
+		hs := summariseRenders(h, depth+1)
+		for _, fr := range hs.fields {
+			addField(fr.typ, fr.field)
+		}
+		for _, pi := range hs.params {
+			if pi >= len(cc.Args) {
+				continue
+			}
+			if t, f := originField(cc.Args[pi], 0); f != "" {
+				addField(t, f)
+			} else if p := originParam(cc.Args[pi], 0); p != nil {
+				addParam(p)
+			}
+		}
+	})
+	return s
+}
+
+// rendersOf: the node fields rendered by the instruction: an invoke of Node.Render on a value
+// read from a field, or a call of a package function that renders fields / the node lists it is
+// handed (renderNodes(w, ctx, n.body), n.renderElse(w, ctx)).
+func rendersOf(in ssa.Instruction) []fieldRef {
+	c, ok := in.(ssa.CallInstruction)
+	if !ok {
+		return nil
+	}
+	cc := c.Common()
+	if cc.IsInvoke() {
+		if cc.Method.Name() != "Render" || !isNamed(cc.Value.Type(), twigPath, "Node") {
+			return nil
+		}
+		t, f := originField(cc.Value, 0)
+		return []fieldRef{{t, f}}
+	}
+	h := cc.StaticCallee()
+	if h == nil || h.Pkg == nil || h.Pkg.Pkg.Path() != twigPath {
+		return nil
+	}
+	// Render methods of nodes are the renderers themselves, not helpers of the caller
+	if h.Name() == "Render" {
+		return nil
+	}
+	hs := summariseRenders(h, 0)
+	var out []fieldRef
+	out = append(out, hs.fields...)
+	for _, pi := range hs.params {
+		if pi < len(cc.Args) {
+			if t, f := originField(cc.Args[pi], 0); f != "" {
+				out = append(out, fieldRef{t, f})
+			}
+		}
+	}
+	return out
+}
+
 // renderOf: if in is an invoke of Node.Render, the origin field of its receiver.
 func renderOf(in ssa.Instruction) (string, string, bool) {
 	c, ok := in.(ssa.CallInstruction)
@@ -75,6 +229,24 @@ func renderOf(in ssa.Instruction) (string, string, bool) {
 	}
 	t, f := originField(c.Common().Value, 0)
 	return t, f, true
+}
+
+// branchRendersOf: rendersOf restricted to one node type, leaving out calls of functions that
+// render more than one of that node's fields — those contain the branch decision themselves and
+// are checked in their own right, not as a render site of the caller.
+func branchRendersOf(in ssa.Instruction, typ string) []fieldRef {
+	var out []fieldRef
+	seen := map[string]bool{}
+	for _, fr := range rendersOf(in) {
+		if fr.typ == typ && !seen[fr.field] {
+			seen[fr.field] = true
+			out = append(out, fr)
+		}
+	}
+	if c, ok := in.(ssa.CallInstruction); ok && !c.Common().IsInvoke() && len(out) > 1 {
+		return nil
+	}
+	return out
 }
 
 func checkC09(w *World, r *Report) {
@@ -132,8 +304,8 @@ func checkIfNode(w *World, r *Report) {
 					}
 				}
 			}
-			if _, f, ok := renderOf(in); ok {
-				switch f {
+			for _, fr := range branchRendersOf(in, "IfNode") {
+				switch fr.field {
 				case "bodies":
 					nBody++
 					if !s.took && vBodyWithout == "" {
@@ -208,10 +380,10 @@ func checkForElse(w *World, r *Report) {
 		}
 		var bodies, elses []ssa.Instruction
 		instrsOf(fn, func(in ssa.Instruction) {
-			if t, f, ok := renderOf(in); ok && t == "ForNode" {
-				if f == "body" {
+			for _, fr := range branchRendersOf(in, "ForNode") {
+				if fr.field == "body" {
 					bodies = append(bodies, in)
-				} else if f == "elseBranch" {
+				} else if fr.field == "elseBranch" {
 					elses = append(elses, in)
 				}
 			}
@@ -418,13 +590,147 @@ func checkLoopScope(w *World, r *Report) {
 			}
 			if bad, path := existsPathAvoiding(fn, s.in, isShadowDefer, nil); !bad {
 				r.ok("R09.3", ssaName(fn), construct, pos, "every feasible path first defers the restore of the previous binding of the same name on the same context", true)
+			} else if w.shadowedByCallersAt(fn, s.in, s.recv, s.name, helpers, 0) {
+				r.ok("R09.3", ssaName(fn), construct, pos, "the binding sits in a helper; at each of its call sites every feasible path first defers the restore of the previous binding of the same name on the context passed", true)
 			} else {
 				r.bad("R09.3", ssaName(fn), construct, pos, "the loop binds "+s.what+" in the caller's own context without saving and restoring the previous binding (path "+strings.Join(path, " → ")+"): after an inner loop the outer loop's counters (loop.index …) are the inner loop's, and loop variables leak past endfor")
 			}
 		}
 	}
-	r.floor("loop-variable bindings in the for renderer", n, 4)
+	r.floor("loop-variable bindings in the for renderer", n, 2)
 	r.Counts["shadow/restore helpers"] = len(helpers)
+}
+
+// shadowedByCallers: the binding is made in a helper on a context it receives as a parameter;
+// every call site of the helper is preceded, on every feasible path, by a deferred shadow of the
+// same name on the context that is passed.
+func (w *World) shadowedByCallers(fn *ssa.Function, recv, name ssa.Value, helpers map[*ssa.Function]bool, depth int) bool {
+	return w.shadowedByCallersAt(fn, nil, recv, name, helpers, depth)
+}
+
+// fieldTest: cond is `<node>.field ==/!= constant`; returns the field, the constant and the
+// successor index on which the field equals the constant.
+func fieldTest(b *ssa.BasicBlock) (fieldRef, string, int, bool) {
+	v, trueIdx, ok := ifCond(b)
+	if !ok {
+		return fieldRef{}, "", 0, false
+	}
+	bo, ok := v.(*ssa.BinOp)
+	if !ok || (bo.Op != token.EQL && bo.Op != token.NEQ) {
+		return fieldRef{}, "", 0, false
+	}
+	x, y := bo.X, bo.Y
+	if _, isC := x.(*ssa.Const); isC {
+		x, y = y, x
+	}
+	c, isC := y.(*ssa.Const)
+	if !isC {
+		return fieldRef{}, "", 0, false
+	}
+	t, f := originField(x, 0)
+	if f == "" {
+		return fieldRef{}, "", 0, false
+	}
+	ck := "nil"
+	if c.Value != nil {
+		ck = c.Value.ExactString()
+	}
+	eqIdx := trueIdx
+	if bo.Op == token.NEQ {
+		eqIdx = 1 - trueIdx
+	}
+	return fieldRef{t, f}, ck, eqIdx, true
+}
+
+// shadowedByCallersAt: site (may be nil) is the binding inside fn; the tests of node fields that
+// control it are assumed in the callers as well (the helper and its caller read the same node).
+func (w *World) shadowedByCallersAt(fn *ssa.Function, site ssa.Instruction, recv, name ssa.Value, helpers map[*ssa.Function]bool, depth int) bool {
+	type assumption struct {
+		f  fieldRef
+		c  string
+		eq bool
+	}
+	var assume []assumption
+	if site != nil {
+		b := site.Block()
+		for d := b.Idom(); d != nil; d = d.Idom() {
+			fr, ck, eqIdx, ok := fieldTest(d)
+			if !ok {
+				continue
+			}
+			for i, sc := range d.Succs {
+				other := d.Succs[1-i]
+				if (sc == b || sc.Dominates(b)) && !(other == b || other.Dominates(b)) && len(sc.Preds) == 1 {
+					assume = append(assume, assumption{fr, ck, i == eqIdx})
+				}
+			}
+		}
+	}
+	p, ok := unspill(recv).(*ssa.Parameter)
+	if !ok || depth > 2 || fn.Object() == nil || fn.Object().Exported() {
+		return false
+	}
+	idx := -1
+	for i, fp := range fn.Params {
+		if fp == p {
+			idx = i
+		}
+	}
+	node := w.callgraph().Nodes[fn]
+	if idx < 0 || node == nil || len(node.In) == 0 {
+		return false
+	}
+	nameConst, nameIsConst := constString(name)
+	nt, nf := originField(name, 0)
+	for _, e := range node.In {
+		if e.Site == nil || e.Caller.Func.Package() != fn.Package() {
+			return false
+		}
+		cc := e.Site.Common()
+		if cc.IsInvoke() || cc.StaticCallee() != fn || idx >= len(cc.Args) {
+			return false
+		}
+		ctxArg := cc.Args[idx]
+		caller := e.Caller.Func
+		matches := func(v ssa.Value) bool {
+			if nameIsConst {
+				s, ok := constString(v)
+				return ok && s == nameConst
+			}
+			t, f := originField(v, 0)
+			return f != "" && t == nt && f == nf
+		}
+		isShadowDefer := func(in ssa.Instruction) bool {
+			d, ok := in.(*ssa.Defer)
+			if !ok {
+				return false
+			}
+			if c, ok := unspill(d.Call.Value).(*ssa.Call); ok {
+				if f := c.Call.StaticCallee(); f != nil && helpers[f] && len(c.Call.Args) == 2 {
+					return sameValue(c.Call.Args[0], ctxArg) && matches(c.Call.Args[1])
+				}
+			}
+			return false
+		}
+		infeasible := func(b *ssa.BasicBlock, i int) bool {
+			fr, ck, eqIdx, ok := fieldTest(b)
+			if !ok {
+				return false
+			}
+			for _, a := range assume {
+				if a.f == fr && a.c == ck && (i == eqIdx) != a.eq {
+					return true
+				}
+			}
+			return false
+		}
+		if bad, _ := existsPathAvoiding(caller, e.Site, isShadowDefer, infeasible); bad {
+			if !w.shadowedByCallers(caller, ctxArg, name, helpers, depth+1) {
+				return false
+			}
+		}
+	}
+	return true
 }
 
 func sameNameValue(a, b ssa.Value) bool {
